@@ -98,6 +98,7 @@ type row struct {
 	Starts  []int64 `json:"starts,omitempty"` // sorted probe start offsets (ns) from the scan start
 	Scans   int64   `json:"scans"`
 	Err     string  `json:"err,omitempty"`
+	Script  string  `json:"script,omitempty"` // eng/probe-errors: outcome of the probe started j-th (see errAlphabet)
 }
 
 // ---------------------------------------------------------------- rate strings
@@ -772,6 +773,191 @@ func engCancelCase(id int, rateStr string, workers int, cancelAfter, watch time.
 	return o
 }
 
+// ---------------------------------------------------------------- engerr (probes that fail, application engine)
+
+// Outcome of a scripted probe, one character per probe in the order the probes START:
+//
+//	.  success            r  connection refused      t  i/o timeout (net.Error, Timeout)   g  generic error
+//	x  connection reset   u  host unreachable        c  context deadline exceeded
+//	M  EMFILE   N  ENFILE   A  EADDRNOTAVAIL   B  ENOBUFS   (local resource errors, as net.Dial reports them:
+//	   *net.OpError{Op: "dial"} around *os.SyscallError{"socket" / "connect" / "bind"})
+//
+// Every failing probe returns at once (nothing is sent), like a dial that fails in the kernel.
+const errAlphabet = ".rtgxucMNAB"
+
+func scriptedErr(c byte) error {
+	sys := func(op, call string, e syscall.Errno) error {
+		return &net.OpError{Op: op, Net: "tcp", Err: os.NewSyscallError(call, e)}
+	}
+	switch c {
+	case 'r':
+		return sys("dial", "connect", syscall.ECONNREFUSED)
+	case 't':
+		return &net.OpError{Op: "dial", Net: "tcp", Err: &timeoutErr{}}
+	case 'g':
+		return errors.New("scripted probe error")
+	case 'x':
+		return sys("read", "read", syscall.ECONNRESET)
+	case 'u':
+		return sys("dial", "connect", syscall.EHOSTUNREACH)
+	case 'c':
+		return fmt.Errorf("probe: %w", context.DeadlineExceeded)
+	case 'M':
+		return sys("dial", "socket", syscall.EMFILE)
+	case 'N':
+		return sys("dial", "socket", syscall.ENFILE)
+	case 'A':
+		return sys("dial", "connect", syscall.EADDRNOTAVAIL)
+	case 'B':
+		return fmt.Errorf("probe: %w", sys("dial", "connect", syscall.ENOBUFS))
+	}
+	return nil
+}
+
+// genErrScript: m outcomes; one to three bursts of failing probes (one error class per burst, or a mix) at positions
+// chosen by r, plus isolated failures; the rest succeed.
+func genErrScript(r *hlib.SplitMix64, m int) (string, string) {
+	b := []byte(strings.Repeat(".", m))
+	fails := errAlphabet[1:]
+	style := r.Intn(4) // 0 one class per burst, 1 mixed classes inside a burst, 2 bursts + isolated failures, 3 everything fails
+	cls := []string{"bursts", "mixed-bursts", "bursts+isolated", "all-fail"}[style]
+	nb := 1 + r.Intn(3)
+	for k := 0; k < nb; k++ {
+		l := 18 + r.Intn(30)
+		if l > m-2 {
+			l = m - 2
+		}
+		at := 1 + r.Intn(m-l-1+1)
+		c := fails[r.Intn(len(fails))]
+		for i := at; i < at+l && i < m; i++ {
+			if style == 1 {
+				c = fails[r.Intn(len(fails))]
+			}
+			b[i] = c
+		}
+	}
+	if style == 2 {
+		for i := range b {
+			if r.Intn(8) == 0 {
+				b[i] = fails[r.Intn(len(fails))]
+			}
+		}
+	}
+	if style == 3 {
+		c := fails[r.Intn(len(fails))]
+		for i := range b {
+			b[i] = c
+			if r.Intn(3) == 0 {
+				b[i] = fails[r.Intn(len(fails))]
+			}
+		}
+	}
+	return string(b), cls
+}
+
+type errScanner struct {
+	mu     sync.Mutex
+	script string
+	l      *callLog
+	starts []time.Time
+}
+
+func (s *errScanner) Scan(ctx context.Context, r *scan.Request) (scan.Result, error) {
+	t := time.Now()
+	s.mu.Lock()
+	pos := len(s.starts)
+	s.starts = append(s.starts, t)
+	if s.l != nil {
+		s.l.add(3, int64(pos))
+	}
+	s.mu.Unlock()
+	if pos < len(s.script) {
+		return nil, scriptedErr(s.script[pos])
+	}
+	return nil, nil
+}
+
+var engErrRates = []string{"200/s", "100/500ms", "125/s", "50/250ms", "250/s", "20/100ms", "1000/5s", "150/s"}
+
+// engErrCase: the application engine with a scanner whose probes fail as scripted.
+//
+//	counted == false  the engine the socks/docker/elastic commands build (hook: parseRawOptions + newScanEngine, the
+//	                  REAL limiter on the real clock): start time of every probe
+//	counted == true   the same construction (scan.NewScanEngine over the ip/port generator, scan.NewRateLimitScanner)
+//	                  around a COUNTING limiter: the order of Take calls and probe starts
+func engErrCase(r *hlib.SplitMix64, id int, counted bool) row {
+	rateStr := engErrRates[r.Intn(len(engErrRates))]
+	workers := []int{1, 2, 3, 4, 6, 8}[r.Intn(6)]
+	nports := 9 + r.Intn(8) // 72 .. 128 probes
+	m := 8 * nports
+	script, cls := genErrScript(r, m)
+	o := row{Kind: "eng", ID: id, Class: "eng/probe-errors/" + cls, RateStr: rateStr, Workers: workers, RetOK: true, M: m, Script: script}
+	if counted {
+		o.Class = "eng/probe-errors-charged/" + cls
+	}
+	cnt, win, err := command.VerifC15ParseRateLimit(rateStr)
+	if err != nil {
+		o.Err = "parse: " + err.Error()
+		return o
+	}
+	o.Rate, o.Per, o.ParseOK = int64(cnt), int64(win), true
+	ctx, cancel := context.WithCancel(context.Background())
+	defer cancel()
+	es := &errScanner{script: script}
+	var engine scan.EngineResulter
+	var lim *countingLimiter
+	if counted {
+		es.l = &callLog{}
+		lim = &countingLimiter{l: es.l}
+		engine = scan.NewScanEngine(scan.NewIPPortGenerator(scan.NewIPGenerator(), scan.NewPortGenerator()),
+			scan.NewRateLimitScanner(es, lim), scan.NewResultChan(ctx, 1000), scan.WithScanWorkerCount(workers))
+	} else {
+		engine, err = command.VerifC15NewGenericEngine(ctx, rateStr, workers, es)
+		if err != nil {
+			o.Err = "engine: " + err.Error()
+			return o
+		}
+	}
+	_, subnet, _ := net.ParseCIDR("10.9.0.0/29")
+	rng := &scan.Range{DstSubnet: subnet, Ports: []*scan.PortRange{{StartPort: 1, EndPort: uint16(nports)}}}
+	go func() {
+		for range engine.Results() {
+		}
+	}()
+	t0 := time.Now()
+	done, errc := engine.Start(ctx, rng)
+	var nerr int64
+	errDone := make(chan struct{})
+	go func() {
+		for range errc {
+			nerr++
+		}
+		close(errDone)
+	}()
+	select {
+	case <-done:
+		<-errDone
+	case <-time.After(60 * time.Second):
+		o.Err = "stuck: engine did not finish"
+	}
+	es.mu.Lock()
+	for _, t := range es.starts {
+		o.Starts = append(o.Starts, int64(t.Sub(t0)))
+	}
+	es.mu.Unlock()
+	sort.Slice(o.Starts, func(i, j int) bool { return o.Starts[i] < o.Starts[j] })
+	o.Scans = int64(len(o.Starts))
+	o.Reads = nerr // errors the engine reported
+	if counted {
+		es.l.mu.Lock()
+		o.Log = append([][2]int64(nil), es.l.log...)
+		es.l.mu.Unlock()
+		o.Takes = atomic.LoadInt64(&lim.n)
+		o.Starts = nil
+	}
+	return o
+}
+
 // ---------------------------------------------------------------- eng (real clock)
 
 type timingScanner struct {
@@ -971,6 +1157,7 @@ func main() {
 	npipe := flag.Int("pipe", 6, "number of sender/receiver runs")
 	neng := flag.Int("eng", 3, "number of application-engine wall-clock runs")
 	maxk := flag.Int("k", 120, "maximal number of Take calls per run")
+	nengerr := flag.Int("engerr", 0, "number of application-engine runs with failing probes (each: one real-clock run, one counting-limiter run)")
 	nfrac := flag.Int("frac", 0, "number of fractional-window limiter runs (plus one engine run when -eng > 0)")
 	one := flag.String("one", "", "replay: kind,id  (regenerates exactly that case of this seed)")
 	capIface := flag.String("capture", "", "capture mode: interface to listen on")
@@ -1073,7 +1260,7 @@ func main() {
 	if *neng > 0 {
 		// slow-then-fast engine run and the quiet-source receive latency runs, side by side
 		var wg sync.WaitGroup
-		extra := make([]row, 6)
+		extra := make([]row, 6+2**nengerr)
 		run := func(i int, kind string, id int, f func() row) {
 			if !want(kind, id) {
 				return
@@ -1088,6 +1275,17 @@ func main() {
 		for k := 0; k < 4; k++ {
 			k := k
 			run(1+k, "rxlat", k, func() row { return rxlatCase(k) })
+		}
+		// probes that fail (refused, timeout, reset, generic, local resource errors) in seed-chosen bursts: real-clock
+		// runs (ids 300+) side by side, counting-limiter runs (ids 400+)
+		for k := 0; k < *nengerr; k++ {
+			k := k
+			run(6+2*k, "eng", 300+k, func() row {
+				return engErrCase(hlib.NewRand(int64(hlib.NewRand(*seed*7000003+int64(k)).Uint64()>>1)), 300+k, false)
+			})
+			run(7+2*k, "eng", 400+k, func() row {
+				return engErrCase(hlib.NewRand(int64(hlib.NewRand(*seed*7000003+int64(k)).Uint64()>>1)), 400+k, true)
+			})
 		}
 		wg.Wait()
 		for _, e := range extra {
